@@ -90,6 +90,8 @@ pub(crate) struct TxProposal {
     pub(super) total_ada: Coin,
     pub(super) fee: Coin,
     pub(super) witnesses_calculator: WitnessesCalculator,
+    #[cfg(csl_verif)]
+    pub(crate) verif_trace: Vec<String>,
 }
 
 impl TxProposal {
@@ -107,15 +109,21 @@ impl TxProposal {
             total_ada: Coin::zero(),
             fee: Coin::zero(),
             witnesses_calculator: WitnessesCalculator::new(),
+            #[cfg(csl_verif)]
+            verif_trace: Vec::new(),
         }
     }
 
     pub(super) fn add_new_output(&mut self, address: &Address) {
+        #[cfg(csl_verif)]
+        self.verif_trace.push("N".to_string());
         self.tx_output_proposals
             .push(TxOutputProposal::new(address));
     }
 
     pub(super) fn add_asset(&mut self, asset: &AssetIndex, policy_index: &PolicyIndex) {
+        #[cfg(csl_verif)]
+        self.verif_trace.push(format!("A,{}", asset.0));
         self.used_assets.insert(asset.clone());
         if let Some(output) = self.tx_output_proposals.last_mut() {
             output.add_asset(asset, policy_index);
@@ -134,6 +142,8 @@ impl TxProposal {
         self.used_utoxs.insert(utxo.clone());
         self.total_ada = self.total_ada.checked_add(ada_coins)?;
         self.witnesses_calculator.add_address(address)?;
+        #[cfg(csl_verif)]
+        self.verif_trace.push(format!("U,{},{}", utxo.0, self.witnesses_calculator.get_full_size()));
         Ok(())
     }
 
@@ -184,6 +194,8 @@ impl TxProposal {
         if let Some(output) = self.tx_output_proposals.last_mut() {
             output.add_ada(&unused_ada)?;
         }
+        #[cfg(csl_verif)]
+        self.verif_trace.push("L".to_string());
 
         Ok(())
     }
